@@ -130,7 +130,10 @@ EXPR_TEMPLATES = ["%Size() > 0", "%Name() +", "%Size() + 'x'", "1/0", "%Size() i
                   # succeed for some files and fail for others: a lazily evaluated filter/sort would rename first
                   "%Size() < 2 or 1/0", "%Size() > 1 or 1/0", "%Name() == 'a.txt' or %Size() + 'x'", "%Name() != 'a.txt' or 1/0",
                   "%Size() if %Size() < 2 else 'x'", "%Name() if %Size() > 1 else %Size()",
-                  "100 / %Size() > 1", "%Size() > 0 or 1/0", "%Name() != 'a.txt' or 10 // %Size()"]
+                  "100 / %Size() > 1", "%Size() > 0 or 1/0", "%Name() != 'a.txt' or 10 // %Size()",
+                  # two criteria: the values that cannot be compared belong to two LATER files that tie on the first criterion
+                  "%Size(), %Name() if %Name() != 'e.txt' else 0", "%Ext(), %Size() if %Name() != 'b.txt' else None",
+                  "len(%Name()), None if %Name() == 'd.txt' else %Size()"]
 
 
 def gen_cli(rng, n, tier):
@@ -198,8 +201,9 @@ def impl_cli(case):
         return obs
 
 
-ALL_FILES = ("in/a.txt", "in/b.txt", "in/sub/c", "in2/a.txt", "in2/d.txt")
-TREE = {"in": None, "in/a.txt": "A", "in/b.txt": "BB", "in/sub": None, "in/sub/c": "C", "in2": None, "in2/a.txt": "", "in2/d.txt": "DDD"}
+ALL_FILES = ("in/a.txt", "in/b.txt", "in/sub/c", "in2/a.txt", "in2/d.txt", "in2/e.txt")
+TREE = {"in": None, "in/a.txt": "A", "in/b.txt": "BB", "in/sub": None, "in/sub/c": "C", "in2": None, "in2/a.txt": "", "in2/d.txt": "DDD",
+        "in2/e.txt": ""}
 
 
 def args_for(case, root, target, recursive=True):
